@@ -119,7 +119,7 @@ pub const KINDS: [(&str, &str, &str); 5] = [
     ("proposition", "PROPOSITION", "P"),
     ("assertion", "ASSERTION", "A"),
     ("evidence", "EVIDENCE", "E"),
-    ("activity", "ACTIVITY", "V"),
+    ("activity", "ACTIVITY", "X"),
 ];
 pub const STATES: [&str; 7] = ["active", "archived", "tombstoned", "merged", "quarantined", "purged", "pending"];
 
@@ -204,7 +204,14 @@ impl World {
 
     /// Runs one command text through the real parser and Executor.
     pub async fn run(&self, text: &str, dry_run: bool) -> Resp {
+        self.run_with(text, dry_run, None).await
+    }
+
+    pub async fn run_with(&self, text: &str, dry_run: bool, params: Option<&Value>) -> Resp {
         let mut request = Request::single(text);
+        if let Some(Value::Object(p)) = params {
+            request.operations[0].parameters = Some(p.clone());
+        }
         if dry_run {
             request.options = Some(RequestOptions { dry_run: Some(true), ..Default::default() });
         }
@@ -301,6 +308,8 @@ impl World {
             ),
             other => other,
         };
+        let seq_free = text.starts_with("DESCRIBE PRIMER") || text.starts_with("DESCRIBE EXECUTION CONTEXT") || text.starts_with("LIST SPACES");
+        let results = if seq_free { strip_keys(&results, &["seq", "space_seq"]) } else { results };
         canon(&json!({
             "status": r.raw.get("status").cloned().unwrap_or(Value::Null),
             "results": results,
@@ -331,7 +340,7 @@ impl World {
             ("proposition", "P", Self::rows::<PropositionRow>(s.propositions()).await),
             ("assertion", "A", Self::rows::<AssertionRow>(s.assertions()).await),
             ("evidence", "E", Self::rows::<EvidenceRow>(s.evidence()).await),
-            ("activity", "V", Self::rows::<ActivityRow>(s.activities()).await),
+            ("activity", "X", Self::rows::<ActivityRow>(s.activities()).await),
         ];
         for (kind, _, rows) in per_kind {
             for (doc, row) in rows {
@@ -435,6 +444,12 @@ impl World {
     /// The observation battery: KQL over every kind and state, counts, tuple patterns,
     /// DESCRIBE / LIST / HISTORY / CHANGES.
     pub fn battery(d: &Dump) -> Vec<String> {
+        let ids: Vec<String> = d.elems.iter().map(|e| e.id.clone()).collect();
+        let txs: Vec<String> = d.journal.iter().map(|j| j.tx_id.clone()).collect();
+        Self::battery_for(&ids, &txs)
+    }
+
+    pub fn battery_for(ids: &[String], txs: &[String]) -> Vec<String> {
         let mut q = vec![];
         for (_, kw, _) in KINDS {
             if kw == "PROPOSITION" {
@@ -456,11 +471,11 @@ impl World {
         q.push("LIST SCHEMA PACKAGES".to_string());
         q.push("HISTORY SPACE".to_string());
         q.push("CHANGES AFTER SEQ 0".to_string());
-        for e in &d.elems {
-            q.push(format!(r#"HISTORY ELEMENT "{}""#, e.id));
+        for id in ids {
+            q.push(format!(r#"HISTORY ELEMENT "{id}""#));
         }
-        for j in &d.journal {
-            q.push(format!(r#"DESCRIBE TRANSACTION "{}""#, j.tx_id));
+        for tx in txs {
+            q.push(format!(r#"DESCRIBE TRANSACTION "{tx}""#));
         }
         q
     }
@@ -473,6 +488,18 @@ impl World {
             d.answers_raw.insert(text, a);
         }
         d
+    }
+}
+
+/// The Space row's counter is the one thing a refused statement may move: the three META answers that
+/// print it are compared without it.
+pub fn strip_keys(v: &Value, keys: &[&str]) -> Value {
+    match v {
+        Value::Object(m) => Value::Object(
+            m.iter().filter(|(k, _)| !keys.contains(&k.as_str())).map(|(k, x)| (k.clone(), strip_keys(x, keys))).collect(),
+        ),
+        Value::Array(a) => Value::Array(a.iter().map(|x| strip_keys(x, keys)).collect()),
+        other => other.clone(),
     }
 }
 
